@@ -44,9 +44,10 @@ def call_event(c):
 
 
 class Paths:
-    def __init__(self, may_raise=lambda callee: True):
+    def __init__(self, may_raise=lambda callee: True, dataflow=False):
         self.may_raise = may_raise
         self.count = 0
+        self.dataflow = dataflow      # also record ('assume', test ast, polarity) and ('assign', target ast, value ast) events
 
     def expr(self, node, traces):
         """traces: list of event tuples.  Returns (normal traces, raised traces)."""
@@ -82,9 +83,15 @@ class Paths:
         res = {'normal': [], 'return': [], 'raise': [], 'break': [], 'continue': []}
         if isinstance(s, (ast.Expr, ast.Assign, ast.AugAssign, ast.AnnAssign, ast.Assert, ast.Delete)):
             n, r = self.expr(s, traces)
+            if self.dataflow and isinstance(s, ast.Assign):
+                n = [t + tuple(('assign', tg, s.value) for tg in s.targets) for t in n]
+            if self.dataflow and isinstance(s, ast.AugAssign):
+                n = [t + (('assign', s.target, ast.BinOp(left=s.target, op=s.op, right=s.value)),) for t in n]
             res['normal'], res['raise'] = n, r
             if isinstance(s, ast.Assert):
                 res['raise'] = res['raise'] + n
+                if self.dataflow:
+                    res['normal'] = [t + (('assume', s.test, True),) for t in n]
         elif isinstance(s, ast.Return):
             n, r = self.expr(s, traces) if s.value is not None else (traces, [])
             res['return'], res['raise'] = n, r
@@ -100,8 +107,9 @@ class Paths:
         elif isinstance(s, ast.If):
             n, r = self.expr(s.test, traces)
             res['raise'] += r
-            for body in (s.body, s.orelse):
-                b = self.block(body, n) if body else {'normal': n}
+            for body, pol in ((s.body, True), (s.orelse, False)):
+                n2 = [t + (('assume', s.test, pol),) for t in n] if self.dataflow else n
+                b = self.block(body, n2) if body else {'normal': n2}
                 for k, v in b.items():
                     res[k] = res.get(k, []) + v
         elif isinstance(s, (ast.For, ast.While)):
@@ -111,6 +119,8 @@ class Paths:
             res['normal'] += n                       # zero iterations
             cur = n
             for _ in range(2):
+                if self.dataflow and isinstance(s, ast.For):
+                    cur = [t + (('iterate', s.target, s.iter),) for t in cur]
                 b = self.block(s.body, cur)
                 res['raise'] += b['raise']
                 res['return'] += b['return']
